@@ -140,8 +140,11 @@ func wantTextLines(es []entry) []string {
 		} else if !plainName(e.Name) {
 			name = "*"
 		}
-		ls = append(ls, norm(fmt.Sprintf("%s 0x%x %s 0x%x %s", name, e.Off, cbfs.FileType(e.Type).String(), e.Size,
-			cbfs.Compression(e.Comp).String())))
+		comp := wantCompName(e.Comp)
+		if isEmptyType(e.Type) {
+			comp = "none" // empty space carries no attributes
+		}
+		ls = append(ls, norm(fmt.Sprintf("%s 0x%x %s 0x%x %s", name, e.Off, wantTypeName(e.Type), e.Size, comp)))
 	}
 	return ls
 }
@@ -181,7 +184,7 @@ func wantJSON(areaOff uint32, es []entry) string {
 		if !plainName(e.Name) && len(e.Name) > 0 {
 			name = "*"
 		}
-		fmt.Fprintf(&sb, "|%s,%d,%d,%s,%s", name, e.Off, e.Size, cbfs.FileType(e.Type).String(), cbfs.Compression(e.Comp).String())
+		fmt.Fprintf(&sb, "|%s,%d,%d,%s,%s", name, e.Off, e.Size, wantTypeName(e.Type), wantCompName(e.Comp))
 	}
 	return sb.String()
 }
@@ -345,6 +348,15 @@ func (prop) Run(c core.Case) core.Outcome {
 		}
 		selfConsistency(&out, i, orig)
 		writeBack(&out, i, img, orig)
+		if c.Args["nomodel"] != "1" {
+			presentChecks(&out, i, orig)
+		}
+		updateChecks(&out, orig, c.Args["nomodel"] != "1", c.Args["file"] != "")
+		return out
+
+	case "runes":
+		runeCheck(&out, core.UnHex(c.Args["s"]))
+		out.Class = "runes"
 		return out
 
 	case "archive":
@@ -373,6 +385,9 @@ func (prop) Run(c core.Case) core.Outcome {
 			if err == nil {
 				out.Class += fmt.Sprintf(",segs=%d", min(len(i.Segs), 3))
 				writeBack(&out, i, img, orig)
+				// presentation and write-back are modelled for every accepted image
+				presentChecks(&out, i, orig)
+				updateChecks(&out, orig, true, false)
 			}
 			return out
 		}
@@ -452,12 +467,10 @@ func (prop) Run(c core.Case) core.Outcome {
 		if c.Args["cmd"] == "1" {
 			runCmds(&out, orig, uint32(len(pre)), recs, origs)
 		}
-		if c.Args["update"] == "1" {
-			// Image.Update on an archive that was not modified must leave the bytes alone
-			uerr := i.Update()
-			O("update-unmodified-id", "ok same", core.ErrClass(uerr)+" "+same(bytes.Equal(i.Data, orig)))
-			out.Checks[len(out.Checks)-1].Sig = "update-unmodified-id"
-		}
+		// M: the text / JSON listing and the bytes after Image.Update equal the model's;
+		// O: Image.Update on the unmodified archive leaves the bytes alone
+		presentChecks(&out, i, orig)
+		updateChecks(&out, orig, true, true)
 		var ts []string
 		for t := range types {
 			ts = append(ts, strings.TrimPrefix(t, "*cbfs."))
